@@ -102,17 +102,16 @@ impl<K: Ord, V: Val<A>, A: Ord + Hash> ResetRemove<A> for Map<K, V, A> {
             })
             .collect();
 
-        self.deferred = mem::take(&mut self.deferred)
-            .into_iter()
-            .filter_map(|(mut rm_clock, key)| {
-                rm_clock.reset_remove(clock);
-                if rm_clock.is_empty() {
-                    None // this deferred remove has been forgotten
-                } else {
-                    Some((rm_clock, key))
-                }
-            })
-            .collect();
+        let mut deferred: HashMap<VClock<A>, BTreeSet<K>> = HashMap::new();
+        for (mut rm_clock, keys) in mem::take(&mut self.deferred) {
+            rm_clock.reset_remove(clock);
+            if !rm_clock.is_empty() {
+                // two pending removes may end up under the same clock: keep both key sets
+                deferred.entry(rm_clock).or_default().extend(keys);
+            }
+            // otherwise this deferred remove has been forgotten
+        }
+        self.deferred = deferred;
 
         self.clock.reset_remove(clock);
     }
